@@ -888,28 +888,8 @@ theorem hist_take_is_constant_design {α : Type} [TrigField α] [ZeroTest α] (s
   rw [hist_model_eq_spec, histSpec_at]
   exact ⟨_, rfl, rfl, parValue_mem _ _ _ _ _ _ (fun i _ => hne i), parValue_mem _ _ _ _ _ _ (fun i _ => hne i)⟩
 
-/-- the parameter ranges of the property, per kind (`v1` = cut-off / centre frequency, resp. the
-comb's alpha / tau; `v2` = bandwidth) -/
-def ParOK : Kind → ℝ → ℝ → Prop
-  | .lowpass _, v1, _ => 0 < v1 ∧ v1 < Real.pi
-  | .highpass _, v1, _ => 0 < v1 ∧ v1 < Real.pi
-  | .resonator st, v1, v2 => 0 < v1 ∧ v1 < Real.pi ∧ 0 < v2 ∧
-      (st = .zExp → |Real.cos v1| * (1 + Real.exp (-(v2 / 2)) ^ 2) ≤ 2 * Real.exp (-(v2 / 2)))
-  | .klapuri, v1, v2 => 0 < v1 ∧ v1 < Real.pi ∧ 0 < v2
-  | _, _, _ => True
-
-/-- what the sections of an instant must satisfy, per kind: the contract record of the constant
-design (sections 1–7, 10); for the combs: being the comb of the drawn alpha / tau, whose
-difference equation is section 6. -/
-def KindMeets : Kind → ℝ → ℝ → List (Coefs ℝ) → Prop
-  | .lowpass st, v1, _, secs => ∀ s ∈ secs, Meets s (lowpassSpec st v1)
-  | .highpass st, v1, _, secs => ∀ s ∈ secs, Meets s (highpassSpec st v1)
-  | .resonator st, v1, v2, secs => ∀ s ∈ secs, Meets s (resonatorSpec st v1 v2)
-  | .klapuri, v1, v2, secs => ∀ s ∈ secs, Meets s (gammatoneSectionContract v1 v2 false)
-  | .combFb d, v1, _, secs => secs = [combFb d v1]
-  | .combTau d, v1, _, secs => secs = [combFb d (Real.exp (-(d : ℝ) / v1))]
-  | .combFf d, v1, _, secs => secs = [combFf d v1]
-
+/-- every constant design meets the per-kind requirement `KindMeets` (`ALV/Lemmas/C13Contract.lean`)
+on the per-kind parameter range `ParOK`. -/
 theorem designOf_meets (k : Kind) (v1 v2 : ℝ) (h : ParOK k v1 v2) : KindMeets k v1 v2 (designOf k v1 v2) := by
   cases k with
   | lowpass st =>
